@@ -1,6 +1,7 @@
 package props
 
 import (
+	"fmt"
 	"strings"
 
 	"github.com/avos-io/goat/litmus"
@@ -77,6 +78,30 @@ func selfTests(tier string) []*explore.Scenario {
 			sc.ExpectOutcomes = l.want
 		} else {
 			sc.ExpectRace = l.race
+		}
+		out = append(out, sc)
+	}
+	// the same program in both granularities: the goroutine's Done can only come before its parent's Add
+	// when the go statement is a scheduling point (fine-grained mode)
+	for _, fine := range []bool{false, true} {
+		fine := fine
+		sc := &explore.Scenario{
+			Name: fmt.Sprintf("SELF/add-after-go/fine=%v", fine), Family: "SELF/add-after-go", Prop: "SELF", Bound: 1, UnlockPoints: fine,
+			Run: func() {
+				vsched.Explore(true)
+				done := false
+				res := ""
+				vsched.GoNamed("litmus", func() { res = litmus.Run("add-after-go"); done = true })
+				vsched.QuiesceTime()
+				if !done {
+					res = "DEADLOCK"
+				}
+				vsched.Obs("%s", res)
+			},
+		}
+		sc.ExpectOutcomes = []string{"ok"}
+		if fine {
+			sc.ExpectOutcomes = []string{"negative", "ok"}
 		}
 		out = append(out, sc)
 	}
